@@ -2,6 +2,7 @@
 Driver for C01: one op per modelled function.
   parse  {"s": str}    -> "k:n/d k:n/d ..." (dict insertion order) | exception class name
   parts  {"s": str}    -> JSON [stoich, chg | null, [dropped prefixes], [dropped suffixes]] | exception class name
+  parse_with {"s": str, "suffixes": [str], "prefixes"?: [str]} -> formula_to_composition with explicit lists
   charge {"s": str}   -> `_get_charge(s)`: the integer | exception class name
   leading_int {"s": str} -> `_get_leading_integer(s)`: JSON [m, rest]
   render {"ast": ...}  -> the written formula
@@ -27,6 +28,14 @@ def h : Handler := fun op j =>
     match formulaToParts prefixesL suffixesL (← getStr j "s").toList with
     | .ok p => pure (Json.arr #[str p.stoich, (match p.chg with | none => Json.null | some c => str c),
         Json.arr (p.droppedPrefixes.map str).toArray, Json.arr (p.droppedSuffixes.map str).toArray]).compress
+    | .error e => pure e.pyName
+  | "parse_with" => do
+    let suffixes := (← getStrList j "suffixes").map String.toList
+    let prefixes ← match j.getObjVal? "prefixes" with
+      | .ok _ => do pure ((← getStrList j "prefixes").map String.toList)
+      | .error _ => pure prefixesL
+    match formulaToCompositionWith prefixes suffixes (← getStr j "s").toList with
+    | .ok c => pure (showComp c)
     | .error e => pure e.pyName
   | "charge" => do
     match getCharge (← getStr j "s").toList with
